@@ -1,7 +1,7 @@
 Require Extraction.
 Require Import ExtrOcamlBasic.
 From Coq Require Import NArith ZArith List.
-From CppcmsV Require Import C16.Defs.
+From CppcmsV Require Import C16.Defs C16.AesDefs C16.Sha2Defs.
 Definition keep_types : (N * Z * nat) := (0%N, 0%Z, 0%nat).
 Extraction "c16m.ml" keep_types md5_session sha1_session hmac_md5_session hmac_sha1_session md5_spec sha1_spec
-  digest_by_name set_hex key_from_file to_hex cbc_ctl_run.
+  digest_by_name set_hex key_from_file to_hex cbc_ctl_run aes_obj_run aes_E aes_D cbc_enc cbc_dec ac_decrypt hc_decrypt cbc_by_name sha2_session hmac_sha2_session.
